@@ -3,7 +3,7 @@
    arguments, to the hand-written model Model/MoParser.v (read_int, read_int2, parse_entry + the decode step, mo_load).
    A behavioural edit of that Python code changes the generated definitions and this file stops compiling. *)
 From Coq Require Import List NArith Bool Lia.
-From I18n Require Import Lib.Outcome Model.MoParser Model.MoParserPy Generated.MoParserSrc
+From I18n Require Import Lib.Outcome Model.MoParser Model.MoParserPy Generated.MoParserSrc Spec.MoFormat
   Proofs.MoBytes Proofs.MoStrings Proofs.MoParser Proofs.MoCorollaries.
 Import ListNotations.
 Local Open Scope N_scope.
@@ -211,3 +211,196 @@ Proof.
       enc_block asc enc m0 msgstr. order_block first last enc m0 Htail.
   - rewrite llen_ge3. reflexivity.
 Qed.
+
+(* ------------------------------------------------------------------ *)
+(* Parser._parse: the loop *)
+
+Lemma parse_entry_keeps_enc : forall asc be f cs last mo so e enc' last',
+  parse_entry asc be f false (Some cs) last mo so = Ok (e, enc', last') -> enc' = cs.
+Proof.
+  intros asc be f cs last mo so e enc' last' H. unfold parse_entry in H.
+  destruct (read_string be f mo MIdNotTerminated) as [msgid| |]; cbn [obind] in H; try discriminate.
+  assert (G : forall m0 rest msgstr, finish_entry asc false (Some cs) last m0 rest msgstr = Ok (e, enc', last') -> enc' = cs).
+  { clear H. intros m0 rest msgstr H. unfold finish_entry in H.
+    assert (G2 : (do encoding <- match last with
+                                 | Some l => if bytes_ltb m0 l then Err (MoSyntax MNotSorted) else Ok cs
+                                 | None => Crash CTypeError
+                                 end;
+                  do e0 <- build_entry m0 (m0 :: rest) msgstr (split_all 0 msgstr); Ok (e0, encoding, m0)) = Ok (e, enc', last') -> enc' = cs).
+    { clear H. intros H. destruct last as [l|]; [|discriminate]. destruct (bytes_ltb m0 l); [discriminate|]. cbn [obind] in H.
+      destruct (build_entry m0 (m0 :: rest) msgstr (split_all 0 msgstr)); cbn [obind] in H; try discriminate.
+      inversion H. reflexivity. }
+    destruct rest as [|p rest]; [|exact (G2 H)].
+    destruct (split_all 0 msgstr) as [|s0 [|s1 r]]; [exact (G2 H)|exact (G2 H)|discriminate]. }
+  destruct (splitn 2 0 msgid) as [|m0 [|m1 [|m2 r]]]; try discriminate;
+    (destruct (read_string be f so MStrNotTerminated) as [msgstr| |]; cbn [obind] in H; try discriminate; exact (G _ _ _ H)).
+Qed.
+
+Lemma loop_keeps_enc : forall asc be f fuel i n otab ttab cs last es encf r,
+  i <> 0 -> entries_loop asc be f fuel i n otab ttab (Some cs) last = (es, encf, r) -> encf = Some cs.
+Proof.
+  intros asc be f fuel. induction fuel as [|k IH]; intros i n otab ttab cs last es encf r Hi H;
+    cbn [entries_loop] in H; destruct (i <? n); try (inversion H; reflexivity);
+    destruct (parse_entry asc be f (i =? 0) (Some cs) last (otab + 8 * i) (ttab + 8 * i)) as [[[e enc'] last']|x|c] eqn:P;
+    try (inversion H; reflexivity);
+    (apply N.eqb_neq in Hi; rewrite Hi in P; apply parse_entry_keeps_enc in P; subst enc').
+  - inversion H. reflexivity.
+  - destruct (entries_loop asc be f k (i + 1) n otab ttab (Some cs) (Some last')) as [[es2 encf2] r2] eqn:L.
+    inversion H; subst. apply (IH _ _ _ _ _ _ _ _ _) in L; [exact L|lia].
+Qed.
+
+Definition cs_of (enc : option bytes) : bytes := match enc with Some c => c | None => ascii_name end.
+
+(* what the loop of _parse makes of the model's loop result: strings decoded entry by entry with the charset in force *)
+Definition load_result (dec : bytes -> bytes -> bool) (acc : list pentry)
+  (x : list mo_entry * option bytes * outcome unit mo_err) : mres (option bytes * list pentry) :=
+  let '(es, enc, r) := x in
+  match find (fun s => negb (dec (cs_of enc) s)) (concat (map entry_strings es)) with
+  | Some s => MRaise (XDecode s)
+  | None => match r with
+            | Ok _ => MRet (enc, acc ++ map entry_embed es)
+            | Err (MoSyntax m) => MRaise (XSyntax (msg_parts m))
+            | Crash c => of_crash c
+            end
+  end.
+
+(* self._encoding and the entries appended to self.instance (self._last_msgid is not part of the model's result) *)
+Definition loop_view (r : mres (option bytes * option bytes * list pentry)) : mres (option bytes * list pentry) :=
+  mbind r (fun '(enc, _, es) => MRet (enc, es)).
+
+Lemma src_loop_eq : forall asc dec be f otab ttab k fuel i n enc last acc,
+  N.of_nat k = n - i -> i + N.of_nat fuel = blen f ->
+  loop_view (src_parse_loop1 asc dec re_search_m re_group_m f (endian_str be) otab ttab k i enc last acc) =
+  load_result dec acc (entries_loop asc be f fuel i n otab ttab enc last).
+Proof.
+  intros asc dec be f otab ttab k. induction k as [|k IH]; intros fuel i n enc last acc Hk Hfuel.
+  - assert (L : (i <? n) = false) by (apply N.ltb_ge; cbn [N.of_nat] in Hk; lia).
+    assert (E : entries_loop asc be f fuel i n otab ttab enc last = ([], enc, Ok tt)) by (destruct fuel; cbn [entries_loop]; rewrite L; reflexivity).
+    rewrite E. cbn [src_parse_loop1 loop_view mbind load_result map concat find]. now rewrite app_nil_r.
+  - assert (L : (i <? n) = true) by (apply N.ltb_lt; rewrite Nat2N.inj_succ in Hk; lia).
+    cbn [src_parse_loop1]. rewrite src_parse_entry_eq.
+    assert (E : entries_loop asc be f fuel i n otab ttab enc last =
+                match parse_entry asc be f (i =? 0) enc last (otab + 8 * i) (ttab + 8 * i) with
+                | Ok (e, enc', last') =>
+                  match fuel with
+                  | O => ([e], Some enc', Crash COutOfFuel)
+                  | S k => let '(es, encf, r) := entries_loop asc be f k (i + 1) n otab ttab (Some enc') (Some last') in (e :: es, encf, r)
+                  end
+                | Err x => ([], enc, Err x)
+                | Crash c => ([], enc, Crash c)
+                end) by (destruct fuel; cbn [entries_loop]; rewrite L; reflexivity).
+    rewrite E. clear E.
+    destruct (parse_entry asc be f (i =? 0) enc last (otab + 8 * i) (ttab + 8 * i)) as [[[e enc'] last']|[m]|c] eqn:P.
+    + destruct fuel as [|fuel]; [apply parse_entry_inside in P; cbn [N.of_nat] in Hfuel; lia|].
+      destruct (entries_loop asc be f fuel (i + 1) n otab ttab (Some enc') (Some last')) as [[es encf] r] eqn:Lp.
+      assert (encf = Some enc') by (eapply loop_keeps_enc; [|exact Lp]; lia). subst encf.
+      cbn [entry_result load_result map concat cs_of]. rewrite find_app.
+      destruct (find (fun s => negb (dec enc' s)) (entry_strings e)); [reflexivity|].
+      cbn [mbind]. rewrite (IH fuel (i + 1) n (Some enc') (Some last') (acc ++ [entry_embed e])).
+      * rewrite Lp. cbn [load_result cs_of]. destruct (find _ _); [reflexivity|].
+        rewrite <- app_assoc. reflexivity.
+      * rewrite Nat2N.inj_succ in Hk. lia.
+      * rewrite Nat2N.inj_succ in Hfuel. lia.
+    + reflexivity.
+    + destruct c; reflexivity.
+Qed.
+
+(* ------------------------------------------------------------------ *)
+(* Parser._parse = mo_load *)
+
+Definition load_embed (r : outcome mo_out load_err) : mres (option bytes * bool * list pentry) :=
+  match r with
+  | Ok o => MRet (o_charset o, o_hidden o, map entry_embed (o_entries o))
+  | Err (LSyntax m) => MRaise (XSyntax (msg_parts m))
+  | Err (LDecode s) => MRaise (XDecode s)
+  | Crash c => of_crash c
+  end.
+
+(* what Parser(path, encoding=...) leaves behind: self._encoding, self.instance.possible_hidden_strings, the entries
+   appended to self.instance (self._endian and self._last_msgid are not part of the model's result) *)
+Definition parse_view (r : mres (unit * (bytes * option bytes * option bytes * bool * list pentry)))
+  : mres (option bytes * bool * list pentry) :=
+  mbind r (fun '(_, (_, enc, _, hidden, es)) => MRet (enc, hidden, es)).
+
+Ltac rd1 be f at_ :=
+  rewrite src_read_ints_1; destruct (read_int be f at_) as [?w|[?m]|?c]; sx; [|reflexivity|destruct c; reflexivity].
+
+Ltac after_hidden asc dec be f w0 enc0 :=
+  rewrite src_read_ints_2; destruct (read_int2 be f 12) as [[?otab ?ttab]|[?m]|?c]; sx; [|reflexivity|destruct c; reflexivity];
+  cbn [h_be h_n h_hidden h_otab h_ttab];
+  let HL := fresh "HL" in
+  pose proof (src_loop_eq asc dec be f otab ttab (N.to_nat w0) (length f) 0 w0 enc0 None []
+                ltac:(rewrite N2Nat.id; lia) ltac:(unfold blen; lia)) as HL;
+  destruct (src_parse_loop1 asc dec re_search_m re_group_m f (endian_str be) otab ttab (N.to_nat w0) 0 enc0 None [])
+    as [[[?a ?b] ?c]| |?x];
+  (destruct (entries_loop asc be f (length f) 0 w0 otab ttab enc0 None) as [[?es ?encf] ?r];
+   unfold loop_view, load_result, cs_of in HL; cbn [mbind app] in HL; cbn [mbind];
+   (destruct (find _ _);
+    [ inversion HL; reflexivity
+    | destruct r as [[]|[?m]|?ck]; try (inversion HL; reflexivity); destruct ck; inversion HL; reflexivity ])).
+
+Lemma src_parse_after_magic : forall asc dec enc0 f be,
+  (bytes_eqb (slice f 0 4) le_magic = true -> be = false) ->
+  (be = true -> bytes_eqb (slice f 0 4) be_magic = true) ->
+  (be = false -> bytes_eqb (slice f 0 4) le_magic = true) ->
+  parse_view (src_parse asc dec re_search_m re_group_m f enc0 []) = load_embed (mo_load asc dec enc0 f).
+Proof.
+  intros asc dec enc0 f be H1 H2 H3. unfold src_parse, mo_load, mo_run, parse_header. cbv zeta.
+  change src_little_endian_magic with le_magic. change src_big_endian_magic with be_magic.
+  assert (E : (if bytes_eqb (slice f 0 4) le_magic then MRet [60]
+               else if bytes_eqb (slice f 0 4) be_magic then MRet [62]
+               else MRaise (XSyntax (msg_parts MMagic))) = MRet (endian_str be)).
+  { destruct be; [|now rewrite H3]. destruct (bytes_eqb (slice f 0 4) le_magic); [now specialize (H1 eq_refl)|]. now rewrite H2. }
+  assert (E' : (if bytes_eqb (slice f 0 4) le_magic then Ok false
+                else if bytes_eqb (slice f 0 4) be_magic then Ok true
+                else Err (MoSyntax MMagic)) = (Ok be : outcome bool mo_err)).
+  { destruct be; [|now rewrite H3]. destruct (bytes_eqb (slice f 0 4) le_magic); [now specialize (H1 eq_refl)|]. now rewrite H2. }
+  unfold msg_parts in E. rewrite E, E'. clear E E'. unfold parse_view. sx.
+  rd1 be f 4. destruct (1 <? w / 65536); sx; [reflexivity|].
+  rd1 be f 8.
+  destruct (1 <? w mod 65536); sx; [after_hidden asc dec be f w0 enc0|].
+  destruct (w mod 65536 =? 1); sx; [|after_hidden asc dec be f w0 enc0].
+  rd1 be f 36. destruct (0 <? w1); sx; after_hidden asc dec be f w0 enc0.
+Qed.
+
+(* the tie: for every file and every encoding argument, running the translated Parser._parse (with the translated
+   _parse_entry and _read_ints) gives what the model's mo_load gives *)
+Theorem src_parse_eq : forall asc dec enc0 f,
+  parse_view (src_parse asc dec re_search_m re_group_m f enc0 []) = load_embed (mo_load asc dec enc0 f).
+Proof.
+  intros asc dec enc0 f.
+  destruct (bytes_eqb (slice f 0 4) le_magic) eqn:E1.
+  - apply (src_parse_after_magic asc dec enc0 f false); congruence.
+  - destruct (bytes_eqb (slice f 0 4) be_magic) eqn:E2.
+    + apply (src_parse_after_magic asc dec enc0 f true); congruence.
+    + unfold src_parse, mo_load, mo_run, parse_header. cbv zeta.
+      change src_little_endian_magic with le_magic. change src_big_endian_magic with be_magic.
+      rewrite E1, E2. reflexivity.
+Qed.
+
+(* consequence for the translated code itself (C09): whatever the file, the translated parser ends normally, with
+   moparser.SyntaxError or with UnicodeDecodeError — no assertion failure, IndexError, TypeError, ValueError, struct.error *)
+Definition clean {A} (r : mres A) : Prop :=
+  match r with MRet _ => True | MRaise (XSyntax _) => True | MRaise (XDecode _) => True | _ => False end.
+
+Theorem src_parse_clean : forall asc dec enc0 f, clean (src_parse asc dec re_search_m re_group_m f enc0 []).
+Proof.
+  intros asc dec enc0 f. assert (H := src_parse_eq asc dec enc0 f). assert (T := mo_load_total asc dec enc0 f).
+  destruct (mo_load asc dec enc0 f) as [o|[m|s]|c]; [| | |exfalso; exact (T c eq_refl)];
+    destruct (src_parse asc dec re_search_m re_group_m f enc0 []) as [[u [[[[en e1] l] h] es]]| |x];
+    cbn in H; try discriminate; cbn; try exact I; inversion H; exact I.
+Qed.
+
+Lemma src_read_ints_eq : forall be f at_,
+  src_read_ints f (endian_str be) at_ 1 = of_out (fun x => [x]) (read_int be f at_) /\
+  src_read_ints f (endian_str be) at_ 2 = of_out (fun p => [fst p; snd p]) (read_int2 be f at_).
+Proof. intros be f at_. split; [apply src_read_ints_1|apply src_read_ints_2]. Qed.
+
+Lemma src_magic_eq : src_little_endian_magic = le_magic /\ src_big_endian_magic = be_magic.
+Proof. split; reflexivity. Qed.
+
+(* non-vacuity: the translated parser run on the example file of Props/C08.v *)
+Lemma src_parse_ex :
+  parse_view (src_parse (fun _ => true) (fun _ _ => true) re_search_m re_group_m ex_file None []) =
+  MRet (Some utf8_name, false, map entry_embed ex_catalog).
+Proof. vm_compute. reflexivity. Qed.
